@@ -43,6 +43,8 @@ def hist_term(h):
             o = "BWriteCopy %s %s %s" % (natlit(op[1]), zlit(op[2]), zlist(op[3]))
         elif t == "grow":
             o = "BGrow %s" % zlit(op[1]); views = []
+        elif t == "clone":
+            o = "BGrow 0"; views = []        # the same bytes in storage of its own: growth by nothing, in the model
         elif t == "new_buffer":
             o = "BNewBuffer %s" % zlit(op[1])
         res = st["res"] if "err" not in st else [-1]
